@@ -25,6 +25,25 @@ var solvers = []solverSpec{
 	}},
 }
 
+// retrySolvers: the second attempt at an undecided obligation also varies the solvers'
+// random seeds: a query that is decided in under a second with one ordering of its
+// search can run for minutes with another (seen on Comparator.Compare#post:1), and a
+// harmless edit elsewhere can flip it; different seeds give it several chances.
+var retrySolvers = []solverSpec{
+	{"z3-new/seed7", func(f string, t int) []string {
+		return []string{"z3-new", fmt.Sprintf("-T:%d", t), "smt.random_seed=7", "sat.random_seed=7", f}
+	}},
+	{"z3-new/seed23", func(f string, t int) []string {
+		return []string{"z3-new", fmt.Sprintf("-T:%d", t), "smt.random_seed=23", "sat.random_seed=23", "smt.arith.random_initial_value=true", f}
+	}},
+	{"z3/seed7", func(f string, t int) []string {
+		return []string{"/usr/bin/z3", fmt.Sprintf("-T:%d", t), "smt.random_seed=7", "sat.random_seed=7", f}
+	}},
+	{"cvc5/seed5", func(f string, t int) []string {
+		return []string{"cvc5", "--incremental", "--seed=5", fmt.Sprintf("--tlimit=%d", t*1000), f}
+	}},
+}
+
 var procSem = make(chan struct{}, 16)
 
 func sanitize(s string) string {
@@ -109,9 +128,13 @@ func solve(o *obligation, outDir string, timeoutS int, all bool) {
 	}
 	ctx, cancel := context.WithCancel(context.Background())
 	defer cancel()
-	ch := make(chan solveOut, len(solvers))
+	portfolio := solvers
+	if o.retried {
+		portfolio = append(append([]solverSpec{}, solvers...), retrySolvers...)
+	}
+	ch := make(chan solveOut, len(portfolio))
 	var wg sync.WaitGroup
-	for _, sp := range solvers {
+	for _, sp := range portfolio {
 		wg.Add(1)
 		go func(sp solverSpec) {
 			defer wg.Done()
@@ -213,8 +236,8 @@ func solveAll(obls []*obligation, outDir string, timeoutS int, all bool) {
 			defer func() { <-sem2 }()
 			first, firstMs := o.status, o.ms
 			o.model = ""
-			solve(o, outDir, 2*timeoutS, all)
 			o.retried = true
+			solve(o, outDir, 2*timeoutS, all)
 			if o.status == "timeout" || o.status == "unknown" {
 				o.ms += firstMs
 			}
